@@ -79,9 +79,15 @@ class DNSCache:
         # direction would return the old incorrect entry.
         store = self.cache.setdefault(record.key, {})
         new = record not in store and not isinstance(record, DNSNsec)
+        # Drop an equal record first: assigning to an existing key keeps the OLD
+        # object as the dict key, and lookups that iterate keys would keep
+        # seeing its stale created/ttl.
+        store.pop(record, None)
         store[record] = record
         if isinstance(record, DNSService):
-            self.service_cache.setdefault(record.server_key, {})[record] = record
+            service_store = self.service_cache.setdefault(record.server_key, {})
+            service_store.pop(record, None)
+            service_store[record] = record
         return new
 
     def async_add_records(self, entries: Iterable[DNSRecord]) -> bool:
